@@ -16,6 +16,7 @@ EXPLANATION = (
     "boundary keeps the borrow shared: read methods of the kernel trait are &self and exports reach them through the "
     "shared-borrow accessor only. Equality of a historical reading with a replayed-state reading is NOT decided."
     ' Round 2 (R5): coordinate resolution never synthesises a coordinate kind (the arm is selected by the request itself), and the checkpoint+tail witness basis of a historical reading never reads the live provenance tip.'
+    ' Every identifying field of a provenance coordinate (worldline, commit hash) takes part in a comparison in the optic read tree.'
 )
 ASSUMPTIONS = ["Rust aliasing rules", "dyn query observers / telemetry sinks are host code (opaque)", "observed_after_global_tick is observation time by definition"]
 FLOOR = 45
